@@ -33,6 +33,10 @@ func c04Scenarios(tier string) []CScenario {
 		{Name: "triple-vs-pair", Threads: [][]CReq{{attsN(k012, 0, 1)}, {attsN(k20, 1, 2)}}},
 		{Name: "three-advancing", Threads: [][]CReq{{att1(0, 0, 1)}, {att1(0, 1, 2)}, {att1(0, 2, 3)}}},
 		{Name: "three-same", Threads: [][]CReq{{att1(0, 0, 1)}, {att1(0, 0, 1)}, {att1(0, 0, 1)}}},
+		// The same on an instance that has already served thousands of other keys (whatever it does to bound its tables
+		// must not loosen the exclusion on a key that is in use).
+		{Name: "three-same-after-many-other-keys", WarmKeys: warmKeys(tier), Threads: [][]CReq{{att1(0, 0, 1)}, {att1(0, 0, 1)}, {att1(0, 0, 1)}}},
+		{Name: "batch-vs-two-singles-after-many-other-keys", WarmKeys: warmKeys(tier), Threads: [][]CReq{{attsN([]int{0, 1}, 0, 1)}, {att1(1, 0, 1)}, {att1(1, 0, 1)}}},
 		{Name: "single-then-batch", Threads: [][]CReq{{att1(0, 0, 1), attsN(k01, 1, 2)}, {att1(1, 0, 1)}}},
 		{Name: "two-then-one", Threads: [][]CReq{{att1(0, 0, 1), att1(0, 1, 2)}, {att1(0, 0, 2)}}},
 		{Name: "lost-update-props", Threads: [][]CReq{{prop1(0, 5), prop1(0, 7)}, {prop1(0, 6)}}},
@@ -207,4 +211,12 @@ func init() {
 	Replayers["C04"] = replayConc
 	Replayers["C15"] = replayConc
 	_ = os.Getenv
+}
+
+// warmKeys is the number of other keys an instance has served before the "after-many-other-keys" scenarios.
+func warmKeys(tier string) int {
+	if tier == "thorough" {
+		return 70000
+	}
+	return 5000
 }
